@@ -44,3 +44,18 @@ Definition cargo_oracle (c : bytes * node * list (bytes * bytes) * list (bytes *
       if negb (list_eqb pair_eqb decl expected) then 5
       else if list_eqb pair_eqb impl decl then 0 else if known then 7 else if negb (cargo_shape_ok d) then 8 else 6
   end.
+
+(* pyproject.toml: same codes as cargo_oracle; [tape] holds the PEP 508 reading of every requirement string of the
+   document (the real answers of pep508_rs, specifiers normalised by the driver) *)
+Definition req_of_tape (tape : list (bytes * option (bytes * bytes))) (s : bytes) : option (bytes * bytes) :=
+  match find (fun p => beq (fst p) s) tape with Some p => snd p | None => None end.
+Definition pyproject_oracle (c : bytes * node * list (bytes * option (bytes * bytes)) * list (bytes * bytes) * list (bytes * bytes)) : N :=
+  let '(content, cst, tape, impl, expected) := c in
+  match denote_toml content cst with
+  | None => 4
+  | Some d =>
+      let decl := declared_pyproject (req_of_tape tape) d in
+      let known := pyproject_known d || negb (plain_pyproject content cst) in
+      if negb (list_eqb pair_eqb decl expected) then 5
+      else if list_eqb pair_eqb impl decl then 0 else if known then 7 else 6
+  end.
